@@ -27,10 +27,66 @@ def sim(lg, seed):
     return mc
 
 
+def manual_restart(c, d):
+    """the restart observer called by hand at a step it has already written (settings changed in between; a named checkpoint under another path):
+    after EVERY observer call the file holds one JSON document describing the latest state"""
+    from ase.io.jsonio import read_json
+    path, ck = os.path.join(d, "run.json"), os.path.join(d, "checkpoint.json")
+    rng = np.random.default_rng(c["seed"])
+    atoms = Atoms("Ar4", positions=rng.uniform(0, 3, (4, 3)), cell=[6, 6, 6], pbc=False)
+    atoms.calc = Harmonic(k=0.5)
+    mc = Canonical(atoms, temperature=300.0, seed=c["seed"], max_cycles=2, logfile=None, restart_file=path, logging_interval=1)
+    mc.add_move(DisplacementMove(np.arange(4)), name="d")
+    mc.run(c["steps1"])
+    out = {"expected_step": int(mc.step_count), "docs": []}
+
+    def load(pth):
+        try:
+            with open(pth) as fh:
+                text = fh.read()
+            doc = read_json(pth)
+            return {"bytes": len(text), "temperature": float(doc["kwargs"]["temperature"]) if "kwargs" in doc and "temperature" in doc["kwargs"] else None,
+                    "step_count": int(doc.get("attributes", {}).get("step_count", doc.get("step_count", -1))) if isinstance(doc, dict) else None,
+                    "keys": sorted(doc)[:12]}
+        except Exception as e:  # noqa: BLE001
+            return {"error": f"{type(e).__name__}: {str(e)[:120]}"}
+    out["docs"].append(["after the run", 300.0, load(path)])
+    mc.temperature = 450.0
+    mc.default_restart()                        # same step_count, other settings: a manual save before leaving
+    out["docs"].append(["after re-tuning the temperature and calling the restart observer by hand", 450.0, load(path)])
+    mc.temperature = 520.0
+    mc.default_restart.file = ck                # a named checkpoint
+    mc.default_restart()
+    out["docs"].append(["named checkpoint (observer.file = other path; observer())", 520.0, load(ck)])
+    json.dump(out, sys.stdout)
+
+
+def remove_fields(c, d):
+    """columns dropped after the first lines were written (equilibration columns not wanted in production) + a new header: every later line has
+    exactly the columns of that header"""
+    a = os.path.join(d, "a.log")
+    lg = Logger(a, 1, mode="w")
+    mc = sim(lg, c["seed"])
+    lg.add_field("Extra", lambda: 1.5, "{:>10.2f}") if c.get("extra") else None
+    mc.run(c["steps1"])
+    names = [n if isinstance(n, str) else n[0] for n in lg.fields]
+    victim = names[-1] if c.get("which", "last") == "last" else names[1]
+    lg.remove_fields(victim)
+    lg.write_header()
+    mc.run(c["steps2"])
+    lg.close()
+    with open(a) as fh:
+        json.dump({"a": fh.read(), "removed": victim, "steps1": c["steps1"], "steps2": c["steps2"]}, sys.stdout)
+
+
 def main():
     c = json.load(sys.stdin)
     d = c["dir"]
     os.makedirs(d, exist_ok=True)
+    if c["variant"] == "manual_restart":
+        return manual_restart(c, d)
+    if c["variant"] == "remove_fields":
+        return remove_fields(c, d)
     a, b = os.path.join(d, "a.log"), os.path.join(d, "b.log")
     first = a if c["first"] == "path" else open(a, c["mode"])  # noqa: SIM115
     lg = Logger(first, 1, mode=c["mode"])
